@@ -137,7 +137,8 @@ class SortChecker:
         elif f == "STOREW":
             sa = self._pure(a[0], env, lets)
             sv = self._pure(a[1], env, lets)
-            if sa is not None and not sa.startswith("bv"):
+            if sa is not None and sa != "bv32":
+                # rz_il_validate: the key of a store/load must have the memory's key length (32 bit on Hexagon)
                 self.issue("sort", f"STOREW address is {sa}")
             if sv is not None and (not sv.startswith("bv") or int(sv[2:]) % 8):
                 self.issue("sort", f"STOREW value is {sv}")
@@ -297,7 +298,9 @@ class SortChecker:
             return x or y
         if f == "LOADW":
             n = self._cnum(a[0])
-            self._bv(a[1], env, lets, "LOADW address")
+            sa = self._bv(a[1], env, lets, "LOADW address")
+            if sa is not None and sa != "bv32":
+                self.issue("sort", f"LOADW address is {sa}")
             return bvs(n) if n else None
         if f in ("INC", "DEC"):
             x = self._bv(a[0], env, lets, f + " operand")
